@@ -8,7 +8,7 @@ ROOT = os.path.dirname(os.path.dirname(os.path.abspath(__file__)))
 CHECKS = {
     "C01": ("exploration",
             "proptest over choice-tape expression DAGs; metamorphic oracle: reference evaluation of original vs simplified + deep type check",
-            "Generated-input search over well-typed expression DAGs (all operators, width/literal boundary classes, rule-shaped operand choices) simplified in three modes; the result must keep the type, type-check node by node and evaluate like the original under every (<=12 symbol bits) or 24 sampled assignments in an independent evaluator. Sampling, not proof.",
+            "Generated-input search over well-typed expression DAGs (all operators, width/literal boundary classes, rule-shaped operand choices) simplified in three modes; the result must keep the type, type-check node by node and evaluate like the original under every (<=12 symbol bits) or 24 sampled assignments (corner-biased, a third drawing on the literals of the case) in an independent evaluator; for a slice of the sampled cases z3 proposes an assignment under which the two differ, which the same evaluator then judges. Sampling, not proof.",
             "Trusts the harness' reference evaluator and type rules; both sides of the comparison are judged by it, never by patronus' evaluator.",
             "DESIGN.md 5/C01"),
     "C02": ("exploration",
